@@ -6,6 +6,7 @@ module that uses it.
 """
 import builtins
 import logging
+import os
 import math
 import types
 import warnings
@@ -223,8 +224,29 @@ def install(mode, solver="glpk"):
     _INSTALLED["mode"] = mode
 
 
+_OBJ_N = [0]
+_HASH_MUL = 2654435761 * (2 * int(os.environ.get("VERIF_SEED", "0") or 0) + 1)
+
+
+def _object_hash(self):
+    """cobra objects hash by address, so the iteration order of sets of reactions/metabolites (e.g. in the
+    `medium` setter) differs from run to run; exploration by re-execution needs the same order on every
+    execution of a prefix.  Pinned like PYTHONHASHSEED: hash = scrambled creation number on this path (the
+    scrambling depends on VERIF_SEED, so different seeds see different orders).  Part of every claim."""
+    d = self.__dict__
+    h = d.get("_vhash")
+    if h is None:
+        _OBJ_N[0] += 1
+        h = d["_vhash"] = (_OBJ_N[0] * _HASH_MUL) & 0x3FFFFFFF
+    return h
+
+
 def for_path(E, solver="glpk"):
     """install the environment matching the path's mode (idempotent)"""
+    import cobra.core.object
+    _OBJ_N[0] = 0
+    if cobra.core.object.Object.__hash__ is not _object_hash:
+        cobra.core.object.Object.__hash__ = _object_hash
     want = "symbolic" if E.symbolic else "concrete:" + solver
     if _INSTALLED["mode"] != want:
         if E.symbolic:
